@@ -7,13 +7,16 @@ ASSUMPTIONS = ["_ical_proc depends only on (parser state, completed line): it is
                "inputs of N bytes, two chunks; longer inputs and three or more chunks are outside the claim"]
 def ob(n, split, **kw):
     o = dict(name='n%d_split%d' % (n, split), src='h_pull.c', defs=['N=%d' % n, 'SPLIT=%d' % split, 'ECHSE_VERIF_STASH=16U'], units=[],
-             incl=['src/evical.c'], replay_units='all', unwind=n + 3, unwindset={'memchr.*': n + 2, 'esccpy.*': n + 2, 'harness.0': 1026},
-             solver='cadical', timeout=900, mem_gb=12, checks=['--bounds-check', '--pointer-check'],
-             replace_calls={'_ical_proc': 'rec_proc'}, excludes=['C10-1', 'C10-2', 'C10-3', 'C10-4'],
+             incl=['src/evical.c'], replay_units='all', unwind=n + 1, unwindset={'harness.*': 19, 'esccpy_w.*': 19, 'rec_proc.*': 10},
+             solver='cadical', timeout=900, mem_gb=12, checks=['--bounds-check', '--pointer-check'], extra=['--max-field-sensitivity-array-size', '8'],
+             replace_calls={'esccpy': 'esccpy_w'}, replace_calls2={'esccpy_real': 'esccpy'}, excludes=['C10-1', 'C10-2', 'C10-3', 'C10-4'],
              enc=['_ical_push', '_ical_pull', 'esccpy'], sym='all %d input bytes' % n, bounds='%d bytes, split after byte %d vs one chunk' % (n, split),
              outside='inputs longer than %d bytes; more than two chunks; the component state machine itself' % n,
-             stubs=['_ical_proc replaced by the line recorder rec_proc (goto-instrument --replace-calls)', 'reference memchr (CBMC has no model)', 'hook ECHSE_VERIF_STASH=16 (line stash of 16 instead of 1024 bytes)'])
+             stubs=['_ical_proc hands the line to the recorder rec_proc (hook ECHSE_VERIF_PROC)', 'reference memchr (CBMC has no model)', 'esccpy run on a window copy of its target with canary (esccpy_w)', 'hook ECHSE_VERIF_STASH=16 (line stash of 16 instead of 1024 bytes)'])
     o.update(kw)
     return o
-OBLIGATIONS = [ob(3, 1), ob(3, 2), ob(4, 1), ob(4, 2), ob(4, 3)] + \
-    [ob(5, k, tiers=('thorough',), timeout=3000, mem_gb=16) for k in (1, 2, 3, 4)]
+OBLIGATIONS = [ob(2, 1), ob(3, 1), ob(3, 2),
+               ob(3, 1, name='kf_escape_split', expect='kf', kf='C10-1', witness=False), ob(3, 1, name='kf_fold_split', expect='kf', kf='C10-2', witness=False)] + \
+    [ob(4, k, tiers=('thorough',), timeout=3000, mem_gb=30) for k in (1, 2, 3)] + \
+    [ob(3, k, defs=['N=3', 'SPLIT=%d' % k, 'ECHSE_VERIF_STASH=16U', 'EMIT'], name='n3_split%d_emit' % k, tiers=('thorough',), timeout=3000, mem_gb=30) for k in (1, 2)]
+
